@@ -1,8 +1,8 @@
 (* C03 -- property theorems only: statement + exact + Print Assumptions. *)
 From Coq Require Import List ZArith Bool.
-From LJT Require Import model.Huff model.Seq model.Prog model.Script gen.GenNatOrder
+From LJT Require Import model.Huff model.Seq model.Prog model.Script model.ArithBin gen.GenNatOrder
   proofs.NatOrderProofs proofs.SeqBits proofs.SeqProofs proofs.ProgProofs proofs.ScriptProofs
-  proofs.ChainProofs proofs.ExampleCodec.
+  proofs.ChainProofs proofs.ArithProofs proofs.ExampleCodec.
 Import ListNotations.
 Local Open Scope Z_scope.
 
@@ -130,12 +130,31 @@ Proof. exact acf_res_spec. Qed.
 Print Assumptions C03_ac_first_values.
 
 (* more than 32767 consecutive all-zero blocks: the run is split at 0x7FFF and still decodes *)
-Example C03_eobrun_overflow_nonvacuous :
-  let bl := repeat (repeat 0 64) (Z.to_nat 32800) ++ [ex_block] ++ repeat (repeat 0 64) 3 in
-  exists bytes, acf_enc_scan fix8 10 1 63 0 0 bl = Some bytes /\
-    acf_dec_scan fix8 1 63 0 0 (repeat (repeat 0 64) (Z.to_nat 32804)) bytes =
-      Some (map (fun b => 0 :: skipn 1 b) bl).
-Proof. eexists. split; vm_compute; reflexivity. Qed.
+Example C03_eobrun_overflow_nonvacuous : 32767 < 32800 /\ eobrun_example_check 32800 = true.
+Proof. split; [reflexivity|vm_compute; reflexivity]. Qed.
+
+(* ---- AC refinement (PARTIAL).  Full statement: one restart interval of AC refinement round-trips
+   for every codec, band and block list (EOBRUN with buffered correction bits, ZRL folding into
+   EOB, forced flushes).  Proved: the byte/restart layer on top of it for every restart interval,
+   the value rule (C03_sa_chain_restores uses ac_refine_val), and concrete instances by
+   computation.  The general segment-level induction is the open gap (design/C03.md). *)
+Definition C03_ac_refine_scan_roundtrip_full : Prop :=
+  forall ac Ss Se Al, (1 <= Ss)%nat -> (Ss <= Se)%nat /\ (Se <= 63)%nat -> 0 <= Al ->
+    acr_segment_roundtrip ac Ss Se Al.
+
+Theorem C03_ac_refine_scan_roundtrip_partial : forall ac Ss Se Al Ri bl cur bytes,
+  acr_segment_roundtrip ac Ss Se Al ->
+  length cur = length bl ->
+  Forall (fun bc => acr_hist Ss Se Al (fst bc) (snd bc)) (combine bl cur) ->
+  acr_enc_scan ac Ss Se Al Ri bl = Some bytes ->
+  acr_dec_scan ac Ss Se Al Ri cur bytes =
+    Some (map (fun bc => acr_expected Ss Se Al (fst bc) (snd bc)) (combine bl cur)).
+Proof. exact acr_scan_roundtrip_from_segment. Qed.
+Print Assumptions C03_ac_refine_scan_roundtrip_partial.
+
+Example C03_ac_refine_instances :
+  acr_example_check 1 63 1 = true /\ acr_example_check 1 63 0 = true /\ acr_example_check 2 40 1 = true.
+Proof. repeat split; vm_compute; reflexivity. Qed.
 
 (* ---- (5) validate_script: an accepted progressive script codes every coefficient of every
    component as the chain (0,a0),(a0,a0-1),...; DC before AC; DC data for every component;
@@ -175,3 +194,37 @@ Theorem C03_sa_chain_restores : forall nc prec scans st,
     (k <> 0 -> run_chain ac_first_val ac_refine_val (scans_of scans c k) 0 v = v).
 Proof. exact sa_chain_restores. Qed.
 Print Assumptions C03_sa_chain_restores.
+
+(* ---- (6) arithmetic coding (PARTIAL): the DC-difference binarisation of jcarith.c and its
+   inverse in jdarith.c are mutually inverse and use the same statistics bins in the same order,
+   including the dc_context conditioning, for every |v| <= 2^15 -- GIVEN a QM coder that delivers
+   the coded decisions (hypothesis; the interval arithmetic with carry / stacked 0xFF bytes is
+   not modelled).  Full statement for a concrete QM coder pair (qm_encode, next): *)
+Definition C03_arith_decisions_roundtrip_full (stream : Type) (next : Z -> stream -> option (bool * stream))
+    (qm_encode : list decision -> stream) : Prop :=
+  forall ctx L U v ds ctx' more, Z.abs v <= 32768 ->
+    enc_dc_arith ctx L U v = (ds, ctx') ->
+    dec_dc_arith stream next ctx L U (qm_encode (ds ++ more)) = Some (v, ctx', qm_encode more).
+
+Theorem C03_arith_decisions_roundtrip_partial :
+  forall (stream : Type) (next : Z -> stream -> option (bool * stream)) (carries : stream -> list decision -> Prop),
+  (forall s st b ds, carries s ((st, b) :: ds) -> exists s', next st s = Some (b, s') /\ carries s' ds) ->
+  forall ctx L U v ds ctx' rest s, Z.abs v <= 32768 ->
+    enc_dc_arith ctx L U v = (ds, ctx') -> carries s (ds ++ rest) ->
+    exists s', dec_dc_arith stream next ctx L U s = Some (v, ctx', s') /\ carries s' rest.
+Proof. exact arith_dc_roundtrip. Qed.
+Print Assumptions C03_arith_decisions_roundtrip_partial.
+
+(* the hypothesis is satisfiable (identity "coder": the stream is the decision list) and the
+   binarisation then round-trips a maximal-category difference *)
+Example C03_arith_nonvacuous :
+  let next := fun (st : Z) (s : list decision) =>
+                match s with (st', b) :: t => if st =? st' then Some (b, t) else None | [] => None end in
+  (forall s st b ds, s = (st, b) :: ds -> exists s', next st s = Some (b, s') /\ s' = ds) /\
+  dec_dc_arith (list decision) next 4 0 1 (fst (enc_dc_arith 4 0 1 (-32767)) ++ [(7, true)])
+    = Some (-32767, snd (enc_dc_arith 4 0 1 (-32767)), [(7, true)]).
+Proof.
+  split.
+  - intros s st b ds ->. exists ds. cbn. rewrite Z.eqb_refl. split; reflexivity.
+  - vm_compute. reflexivity.
+Qed.
